@@ -222,8 +222,8 @@ _pb("C14", "contract-based deductive verification (pyvc) of the loop bodies of _
     "recursion, the final two children of binarization, the rejection of unmarked nodes and the round trips are bounded only.",
     "block contracts proved for one iteration of each of the three loops, the property itself bounded; 'other'")
 PROPS["C16"]["technique"] = ("contract-based deductive verification (pyvc VCs from the real AST, z3) of gap_degree_node, has_gaps, gap_type, "
-                             "terminal_blocks, gap_degree, SentenceCount.run, PosTags.run, GapDegree.run + bounded stand-in for the printed "
-                             "reports, three-way agreement, disco_order")
+                             "terminal_blocks, gap_degree, SentenceCount.run, PosTags.run, GapDegree.run, disco_order (recursion) + bounded "
+                             "stand-in for the printed reports, the three-way agreement and 'identity order for a continuous tree'")
 PROPS["C16"]["explanation"] = ("Proved for all inputs: gap_degree_node == set-based gap degree, has_gaps, gap_type classification, "
                                "terminal_blocks partitions T(node) into its maximal runs in order with |blocks| = gap degree + 1, "
                                "gap_degree is the maximum over the nodes in preorder, the counting tasks add exactly one per sentence / "
